@@ -124,6 +124,10 @@ def run(ctx):
                 trees.append(('gp', [('coef', [('arg', 1)], [nm], 'method'), ('arg', nargs)], [], 'infix'))
             if q:
                 trees = rng.sample(trees, min(len(trees), 70 if d == 2 else 45))
+            if nargs == 1:
+                # a dual directly followed by an undual of the same or of another kind (and vice versa), all spellings
+                chains = PR.dual_chains(polarity=(0 not in u['sig'] and u['r'] == 0))
+                trees += rng.sample(chains, 16 if q else len(chains))
             for i in range(0, len(trees), 8):
                 chunk = trees[i:i + 8]
                 for symbolic in (False, True):
